@@ -31,7 +31,9 @@ PROPERTY = "C15"
 RULE = ("case = one history executed in one new process: fresh (job twice), seq (1-8 random other jobs, reuse flags "
         "none/dict/driver/engine per step, then every step judged against the job's fresh-process result), interleave "
         "(forwards of 2-4 differentiable jobs, then joint/fifo/lifo backward), dictreuse (one settings dict, two "
-        "molecules), enginereuse (one MD engine / optimiser object, consecutive runs on fresh Molecule objects), threads (torch.set_num_threads 2,4,8,16,1 before the job); non-trivial when at least one step "
+        "molecules), enginereuse (one MD engine / optimiser object, consecutive runs on fresh Molecule objects, also with "
+        "control_energy_shift / scale_vel), options (ordered pairs of jobs with dispersion / cutoff / alternative "
+        "parameter files / learned lists), threads (torch.set_num_threads 2,4,8,16,1 before the job); non-trivial when at least one step "
         "was compared with a fresh-process reference; distinct by SHA-1 of the case")
 ASSUMPTIONS = ["float64 CPU", "the fresh-process reference of a job is computed once per check run and shared between "
                "cases through a scratch cache (it is deterministic: verified by the 'fresh' cases, which run it twice)",
@@ -41,7 +43,8 @@ ASSUMPTIONS = ["float64 CPU", "the fresh-process reference of a job is computed 
                "a reused driver object confronted with new elements may raise (loud rejection), per the maintainers' fix"]
 REQUIRED_MONITORS = ["fresh_processes", "immediate_repeats_compared", "steps_judged_after_history",
                      "dict_reuse_steps_judged", "driver_reuse_steps_judged", "interleave_jobs_judged",
-                     "thread_steps_judged", "raising_steps_judged", "engine_reuse_steps_judged"]
+                     "thread_steps_judged", "raising_steps_judged", "engine_reuse_steps_judged",
+                     "engine_reuse_with_run_options_judged", "option_job_steps_judged"]
 CASE_TIMEOUT = 1200.0
 BUDGET_S = {"quick": float(os.environ.get("VERIF_C15_BUDGET", 230)), "thorough": float(os.environ.get("VERIF_C15_BUDGET", 1700))}
 MIN_NONTRIVIAL = 6
@@ -65,14 +68,19 @@ def _rand_step(g, allow_raise=True):
         return {"job": J.RAISE_JOBS[int(g.integers(0, len(J.RAISE_JOBS)))], "reuse": ["none", "dict"][int(g.integers(0, 2))]}
     if r < 0.17:
         return {"consume_rng": int(g.integers(1, 50))}
-    if r < 0.45:  # favour the family that shares one settings template (dictionary / driver reuse is meaningful there)
+    if r < 0.40:  # favour the family that shares one settings template (dictionary / driver reuse is meaningful there)
         job = _SIG_A[int(g.integers(0, len(_SIG_A)))]
+    elif r < 0.58:  # rarely used options that carry their own tables / module state, in either order
+        job = J.OPTION_JOBS[int(g.integers(0, len(J.OPTION_JOBS)))]
     else:
         job = _OK_JOBS[int(g.integers(0, len(_OK_JOBS)))]
     modes = ["none", "dict", "engine"] if job in J.ENGINE_JOBS else ["none", "dict", "driver"]
     return {"job": job, "reuse": modes[int(g.integers(0, 3))]}
 
 
+# engines run with options that keep a reference on the engine object (energy-shift reference, velocity rescaling)
+_OPTION_ENGINE_PAIRS = [("md_shift_h2o", "md_shift_h2o_b"), ("md_scale_nh3", "md_scale_nh3_b"),
+                        ("md_xlshift_h2o", "md_xlshift_h2o_b"), ("md_lshift_nh3", "md_lshift_nh3_b")]
 _ENGINE_PAIRS = [("md_xl_h2o", "md_xl_h2o_b"), ("md_ksa_h2o", "md_ksa_h2o_b"), ("md_bomd_h2o", "md_bomd_h2o_b"),
                  ("md_lang_nh3", "md_lang_nh3_b"), ("opt_sd_h2o", "opt_sd_h2o_b"), ("md_xl_h2o", "md_xl_h2o"),
                  ("md_ksa_h2o_b", "md_ksa_h2o"), ("md_xl_h2o_b", "md_xl_h2o")]
@@ -81,7 +89,7 @@ _ENGINE_PAIRS = [("md_xl_h2o", "md_xl_h2o_b"), ("md_ksa_h2o", "md_ksa_h2o_b"), (
 def gen_cases(tier, seed):
     g = gen.rng("C15", tier)
     cases = []
-    nseq, nint, nthr = (10, 5, 4) if tier == "quick" else (260, 70, 30)
+    nseq, nint, nthr = (10, 4, 3) if tier == "quick" else (260, 70, 30)
     # --- interleavings (the tight-then-loose pair is always present)
     pairs = [(["g_am1_h2o_tight", "g_am1_nh3_loose"], "joint"), (["g_am1_h2o_tight", "g_pm6sp_h2s_sb1"], "fifo"),
              (["g_pm3_hcn_param", "g_am1_nh3_loose", "g_mndo_nh3_sb2"], "joint"),
@@ -110,12 +118,24 @@ def gen_cases(tier, seed):
                                                       {"job": b, "reuse": mode}]})
     # --- one MD engine / optimiser OBJECT used for two consecutive runs on fresh Molecule objects
     ep = _ENGINE_PAIRS[:6] if tier == "quick" else _ENGINE_PAIRS + [(b, a) for a, b in _ENGINE_PAIRS[:5]]
+    ep = _OPTION_ENGINE_PAIRS + ep + ([(b, a) for a, b in _OPTION_ENGINE_PAIRS] if tier == "thorough" else [])
     for a, b in ep:
         cases.append({"kind": "enginereuse", "steps": [{"job": a, "reuse": "engine"}, {"job": b, "reuse": "engine"}]})
     if tier == "thorough":
         for a, b in _ENGINE_PAIRS[:5]:
             cases.append({"kind": "enginereuse", "steps": [{"job": a, "reuse": "engine"}, {"job": b, "reuse": "engine"},
                                                           {"job": a, "reuse": "engine"}]})
+    # --- jobs with rarely used options (dispersion tables, cutoffs, alternative parameter files, learned lists), separate
+    # settings dictionaries, every ordered pair of the dispersion family (same largest Z, different element sets)
+    op = [("disp_h2o_dimer", "disp_ch2o_dimer"), ("disp_ch2o_dimer", "disp_h2o_dimer"), ("disp_h2o_dimer", "disp_batch"),
+          ("disp_nh3_dimer", "disp_hcn_dimer"), ("pm3_h2o", "pm3_h2o_altparams"), ("pm3_h2o_altparams", "pm3_h2o"),
+          ("am1_h2o_learned", "am1_h2o"), ("am1_dimer_cutoff", "disp_h2o_dimer"), ("am1_h2o_hfflag", "am1_h2o_b")]
+    if tier == "thorough":
+        op += [(a, b) for a in J.DISP_JOBS for b in J.DISP_JOBS if a != b and (a, b) not in op]
+        op += [(a, b) for a in J.OPTION_JOBS for b in ("am1_h2o", "pm3_h2o") if (a, b) not in op]
+    for a, b in op:
+        cases.append({"kind": "options", "steps": [{"job": a, "reuse": "none"}, {"job": b, "reuse": "none"},
+                                                    {"job": a, "reuse": "none"}]})
     # --- thread counts
     tj = ["am1_c6h6", "am1_batch", "pm3_ch3oh_sp2", "g_am1_h2o_tight", "md_bomd_h2o"]
     for i in range(nthr):
@@ -371,6 +391,10 @@ def run_case(case):
                 if threads_now != 1 or kind == "threads":
                     inc("thread_steps_judged")
                     cells.append("threads/%s" % threads_now)
+                if J.JOBS[job].get("run_kw") and rr.get("engine_reused"):
+                    inc("engine_reuse_with_run_options_judged")
+                if job in J.OPTION_JOBS:
+                    inc("option_job_steps_judged")
                 if rr.get("engine_reused"):
                     inc("engine_reuse_steps_judged")
                 elif rr.get("driver_reused"):
